@@ -1,6 +1,10 @@
 //! Utilities for multiple borrowing of state.
 
+#[cfg(not(any(kani, mahf_verif)))]
 use std::collections::HashSet;
+
+#[cfg(any(kani, mahf_verif))]
+use super::kmap::HashSet;
 
 use crate::{state::registry::StateRegistry, CustomState, StateError};
 
